@@ -3,6 +3,7 @@ package sim
 import (
 	"encoding/json"
 	"fmt"
+	"strings"
 
 	"github.com/trustbloc/sidetree-go/pkg/document"
 	"github.com/trustbloc/sidetree-go/pkg/patch"
@@ -203,6 +204,10 @@ func ietfShape(patches []any) string {
 }
 
 func protectedPointer(p string) bool {
+	// a lenient RFC 6901 evaluation ignores whatever precedes the first slash
+	if i := strings.Index(p, "/"); i > 0 {
+		p = p[i:]
+	}
 	for _, m := range []string{"/publicKey", "/service"} {
 		if p == m || (len(p) > len(m) && p[:len(m)+1] == m+"/") {
 			return true
